@@ -63,6 +63,10 @@ int main() {
         std::string o1 = capture([] { masa_display_param(); }), o2 = capture([] { masa_display_param<double>(); }); n++; if (o1 != o2) printf("BAD masa_display_param on %s: C and C++ print different text\n", sol.c_str());
         std::vector<std::string> pn; { std::istringstream ps(o2); std::string line; while (std::getline(ps, line)) { size_t p = line.find(" is set to:"); if (p != std::string::npos) pn.push_back(line.substr(0, p)); } }
         int k = 0;
+        // a registered name followed by a byte >= 0x80 is an unknown name for both interfaces
+        for (size_t q = 0; q < pn.size() && q < 4; q++) for (const char* suf : {"\xc2\xb0", "\xe9", "\x80"}) { std::string bad = pn[q] + suf; double a = 0, b = 0; std::string oa = capture([&] { a = masa_get_param(bad.c_str()); }), ob = capture([&] { b = masa_get_param<double>(bad); }); n++;
+          double before = masa_get_param<double>(pn[q]); capture([&] { masa_set_param(bad.c_str(), 4.625); }); double after = masa_get_param<double>(pn[q]);
+          if (memcmp(&a, &b, 8) || oa != ob || memcmp(&before, &after, 8)) { printf("BAD parameter name '%s' + non-ASCII byte through C on %s: get returns %.17g (C++ %.17g), registered parameter %s\n", pn[q].c_str(), sol.c_str(), a, b, memcmp(&before, &after, 8) ? "was overwritten" : "untouched"); break; } }
         // (one name buffer re-used for every C call, read with one name and written with the next)
         { static char NB[300]; for (size_t q = 0; q + 1 < pn.size() && q < 6; q++) { strcpy(NB, pn[q].c_str()); double g0 = masa_get_param(NB); (void)g0; strcpy(NB, pn[q + 1].c_str()); double before = masa_get_param<double>(pn[q]); masa_set_param(NB, 6.125 + q); n++;
             if (masa_get_param<double>(pn[q + 1]) != 6.125 + q || masa_get_param<double>(pn[q]) != before) printf("BAD masa_set_param through a re-used name buffer on %s: after get(%s), set(%s) wrote the wrong parameter\n", sol.c_str(), pn[q].c_str(), pn[q + 1].c_str()); }
